@@ -13,7 +13,9 @@
 (*   fac    TRUE iff the object came from the factory (New), FALSE = Clone  *)
 (*   rs     TRUE iff reseeded since New/Reset (only labels cases)           *)
 (*   st     "nil" (no object) | "ok" | "unspec" (after Reset of a clone:    *)
-(*          the property leaves it open, nothing is predicted any more)     *)
+(*          the property leaves it open, nothing is predicted any more for  *)
+(*          THAT object; it can still be used -- action Poke -- and whatever*)
+(*          is done to it must not change what any OTHER handle yields)     *)
 (*                                                                         *)
 (* The bytes a handle returns are an UNINTERPRETED function                 *)
 (*   Out(seed, items)[pos .. pos+n)                                         *)
@@ -27,7 +29,8 @@ EXTENDS Integers, Sequences, FiniteSets, TLC, Json, SequencesExt
 CONSTANTS InitSeeds,   \* seed length classes for the first handle
           MidSeeds,    \* seed length classes for New in the middle of a behaviour
           Chunks,      \* chunk length classes for Write / Read / XORKeyStream
-          L            \* behaviour length (records in hist)
+          L,           \* behaviour length (records in hist)
+          Ops          \* operations the generator may take after the first New (focus runs restrict the menu)
 
 VARIABLES hs,          \* handle slot -> abstract handle
           lg,          \* ghost: per slot the log of operations that produced the object
@@ -55,6 +58,9 @@ Reset(h)      == /\ Live(h)
                                             ELSE [hs[h] EXCEPT !.st = "unspec"]]
 Clone(a, b)   == /\ Live(a) /\ a # b
                  /\ hs' = [hs EXCEPT ![b] = [hs[a] EXCEPT !.fac = FALSE]]
+(* any call on an unspecified object: its own state stays unspecified, every *)
+(* other handle is untouched                                                 *)
+Poke(h)       == hs[h].st = "unspec" /\ UNCHANGED hs
 
 -----------------------------------------------------------------------------
 (* Declarative meaning of an operation log (ghost), written without         *)
@@ -110,16 +116,22 @@ Init == \E s \in InitSeeds :
           /\ lg = [h \in Handles |-> IF h = 1 THEN <<Ent("New", 0, <<>>, <<s>>)>> ELSE <<>>]
           /\ hist = <<[op |-> "New", h |-> 1, n |-> s, a |-> 0, cs |-> "new", post |-> Fresh(<<s>>)]>>
 
+PRec(op, h, n) == [op |-> op, h |-> h, n |-> n, a |-> 0, cs |-> "unspec", post |-> hs[h]]
 Next ==
   /\ Len(hist) < L
   /\ \E h \in Handles :
-       \/ \E s \in MidSeeds : New(h, <<s>>) /\ Do(Rec("New", h, s, 0), Ent("New", 0, <<>>, <<s>>))
-       \/ \E n \in Chunks : Write(h, WItems(n)) /\ Do(Rec("Write", h, n, 0), Ent("Write", n, WItems(n), <<>>))
-       \/ \E n \in Chunks : Read(h, n) /\ Do(Rec("Read", h, n, 0), Ent("Read", n, <<>>, <<>>))
-       \/ \E n \in Chunks : Xor(h, n) /\ Do(Rec("Xor", h, n, 0), Ent("Xor", n, <<>>, <<>>))
-       \/ Reseed(h) /\ Do(Rec("Reseed", h, 0, 0), Ent("Reseed", 0, <<>>, <<>>))
-       \/ Reset(h) /\ Do(Rec("Reset", h, 0, 0), Ent("Reset", 0, <<>>, <<>>))
-       \/ \E a \in Handles : Clone(a, h) /\ Do(Rec("Clone", h, 0, a), Ent("Clone", 0, <<>>, <<>>))
+       \/ "New" \in Ops /\ \E s \in MidSeeds : New(h, <<s>>) /\ Do(Rec("New", h, s, 0), Ent("New", 0, <<>>, <<s>>))
+       \/ "Write" \in Ops /\ \E n \in Chunks : Write(h, WItems(n)) /\ Do(Rec("Write", h, n, 0), Ent("Write", n, WItems(n), <<>>))
+       \/ "Read" \in Ops /\ \E n \in Chunks : Read(h, n) /\ Do(Rec("Read", h, n, 0), Ent("Read", n, <<>>, <<>>))
+       \/ "Xor" \in Ops /\ \E n \in Chunks : Xor(h, n) /\ Do(Rec("Xor", h, n, 0), Ent("Xor", n, <<>>, <<>>))
+       \/ "Reseed" \in Ops /\ Reseed(h) /\ Do(Rec("Reseed", h, 0, 0), Ent("Reseed", 0, <<>>, <<>>))
+       \/ "Reset" \in Ops /\ Reset(h) /\ Do(Rec("Reset", h, 0, 0), Ent("Reset", 0, <<>>, <<>>))
+       \/ "Clone" \in Ops /\ \E a \in Handles : Clone(a, h) /\ Do(Rec("Clone", h, 0, a), Ent("Clone", 0, <<>>, <<>>))
+       \* calls on an object left unspecified by Reset-of-a-clone: executed, never judged themselves
+       \/ /\ Poke(h)
+          /\ \/ \E op \in {"Read", "Xor", "Write"} \cap Ops : \E n \in Chunks \ {0} :
+                   Do(PRec(op, h, n), Ent(op, n, <<>>, <<>>))
+             \/ \E op \in {"Reseed", "Reset"} \cap Ops : Do(PRec(op, h, 0), Ent(op, 0, <<>>, <<>>))
 
 Spec == Init /\ [][Next]_vars
 
@@ -143,18 +155,24 @@ CloneExact == [][\A a, b \in Handles :
 
 (* Write is taken only in absorbing mode; Reseed and Reset re-open it       *)
 WriteGuard == [][\A h \in Handles :
-                   (hist' # hist /\ hist'[Len(hist')].op = "Write" /\ hist'[Len(hist')].h = h)
+                   (hist' # hist /\ hist'[Len(hist')].op = "Write" /\ hist'[Len(hist')].h = h /\ hist'[Len(hist')].cs # "unspec")
                    => hs[h].mode = "abs"]_vars
 ReseedWritable == [][\A h \in Handles :
-                   (hist' # hist /\ hist'[Len(hist')].op = "Reseed" /\ hist'[Len(hist')].h = h)
+                   (hist' # hist /\ hist'[Len(hist')].op = "Reseed" /\ hist'[Len(hist')].h = h /\ hist'[Len(hist')].cs # "unspec")
                    => (hs'[h].mode = "abs" /\ hs'[h].pos = 0 /\ hs'[h].seed = hs[h].seed
                        /\ hs'[h].items = Append(hs[h].items, <<"r", hs[h].pos>>))]_vars
 
 (* Reset of a factory-made handle: back to the seeded initial state at any  *)
 (* point of its life; Reset of a clone: unspecified                         *)
 ResetSpec == [][\A h \in Handles :
-                   (hist' # hist /\ hist'[Len(hist')].op = "Reset" /\ hist'[Len(hist')].h = h)
+                   (hist' # hist /\ hist'[Len(hist')].op = "Reset" /\ hist'[Len(hist')].h = h /\ hist'[Len(hist')].cs # "unspec")
                    => IF hs[h].fac THEN hs'[h] = Fresh(hs[h].seed) ELSE hs'[h].st = "unspec"]_vars
+
+(* operations on one handle never change what any other handle yields: the  *)
+(* abstract state of h is untouched by every action whose target is h' # h  *)
+(* -- also when h' is a clone of h, and also when h' has become unspecified *)
+Isolation == [][\A h \in Handles :
+                  (hist' # hist /\ hist'[Len(hist')].h # h) => hs'[h] = hs[h]]_vars
 
 View == <<hs, lg>>
 Emit == (Len(hist) = L) => PrintT(<<"TRACE", ToJson(hist)>>)
